@@ -26,7 +26,7 @@ def budgets(tier):
     return {"examples": 2500, "max_s": 700, "shrink_s": 90, "shards": 16}
 
 
-OPS = ["subset_root", "subset", "subset", "combine", "concat", "invert", "get_plate", "observed", "unobserved", "to_screen", "unique", "set_observed"]
+OPS = ["subset_root", "subset", "subset", "combine", "concat", "invert", "get_plate", "observed", "unobserved", "to_screen", "unique", "set_observed", "merge", "unique_of_screen"]
 
 
 @st.composite
@@ -179,6 +179,27 @@ def check_case(case):
                 if okind in ("observed", "unobserved"):
                     # whether such a view follows the parent's mask is not asserted: its model is re-read from the view itself
                     views[v_i] = (ov, np.where(np.asarray(ov.selection_vector))[0].tolist(), od, okind)
+            continue
+        elif kind == "merge":
+            # two plates of the parent are merged in place: plate names / ids of the parent change, row attributes do not
+            pids = sorted(set(int(x) for x in screen.plate_ids))
+            if len(pids) < 2:
+                continue
+            pa, pb = pids[op["a"] % len(pids)], pids[op["b"] % len(pids)]
+            if pa == pb or bool(mask[np.asarray(screen.plate_ids) == pa][0]) != bool(mask[np.asarray(screen.plate_ids) == pb][0]):
+                continue  # only plates of equal observation status (a merged plate stays uniformly observed)
+            screen.get_plate(pa).merge(screen.get_plate(pb))
+            frozen["plate_ids"] = np.array(screen.plate_ids, copy=True)
+            for ov, oidx, _, okind in views:
+                _self_consistent(ov, screen, "after_merge." + okind)
+            continue
+        elif kind == "unique_of_screen":
+            # the filter applied to the Screen itself (not to a view)
+            v = filter_dataset_to_unique_treatments(screen)
+            got = np.where(np.asarray(v.selection_vector))[0].tolist()
+            key = lambda i: (int(screen.sample_ids[i]),) + tuple(int(x) for x in screen.treatment_ids[i])
+            ks = [key(i) for i in got]
+            require(len(ks) == len(set(ks)) and set(ks) == set(key(i) for i in range(n)), "unique_of_screen.exact", "unique filter on the whole screen does not keep exactly one row per condition")
             continue
         elif kind == "to_screen":
             pv, pidx, pd, _ = pick(op["a"])
